@@ -1,10 +1,101 @@
 import CoxeterVerif.Driver.Proto
+import CoxeterVerif.Model.Families
+import CoxeterVerif.Spec.Families
+import CoxeterVerif.Generated.Planes
 
 namespace OpsC17
+open Fam
+
+variable {α : Type} [Scalar α] [Codec α]
+
+def pts (l : List (V3 α)) : String :=
+  " ".intercalate (Out.int l.length :: l.map Out.v3)
+
+def ptsE (r : Except String (List (V3 α))) : String :=
+  match r with
+  | .ok l => pts l
+  | .error e => s!"E:{e}"
+
+def tripleE (r : Except String (α × α × α)) : String :=
+  match r with
+  | .ok d => s!"{Out.sc d.1} {Out.sc d.2.1} {Out.sc d.2.2}"
+  | .error e => s!"E:{e}"
+
+def tableOf (k : Nat) : Table :=
+  if k = 0 then Gen.fam323 else if k = 1 then Gen.fam423 else Gen.fam523
+
+def str (c : Ctx) : Rd String := do
+  let cs ← Rd.list c (Rd.nat c)
+  pure (String.ofList (cs.map Char.ofNat))
+
+def outStr (s : String) : String :=
+  " ".intercalate (Out.int s.length :: s.toList.map fun ch => Out.int ch.toNat)
 
 /-- driver ops of C17. `none` = unknown op. -/
 def run (α : Type) [Scalar α] [Codec α] (op : String) (c : Ctx) : Option (Rd String) :=
   match op with
+  | "fam.mv" => some do
+      -- in: planes, types, a b c ; out: n, points  (TruncationPlaneShapeFamily.make_vertices)
+      let planes : List (V3 α) ← Rd.list c (Rd.v3 c)
+      let types ← Rd.list c (Rd.nat c)
+      let a : α ← Rd.sc c; let b : α ← Rd.sc c; let cc : α ← Rd.sc c
+      pure (pts (makeVertices planes types a b cc))
+  | "fam.table" => some do
+      -- in: k ; out: den n planes(3n) types(n) b aLo aHi cLo cHi   (regenerated table, as scalars)
+      let k ← Rd.nat c
+      let T := tableOf k
+      let P : List (V3 α) := T.planesS
+      let z (x : Z5) : String := Out.sc (x.toScalar T.den : α)
+      pure (" ".intercalate ([Out.int T.den, Out.int P.length] ++ P.map Out.v3
+        ++ [Out.int T.types.length] ++ T.types.map (fun (t : Nat) => Out.int (Int.ofNat t))
+        ++ [z T.b, z T.aLo, z T.aHi, z T.cLo, z T.cHi]))
+  | "fam.tttable" => some do
+      let M := Gen.tt
+      let z (x : Z5) : String := Out.sc (x.toScalar M.den : α)
+      pure s!"{z M.tLo} {z M.tHi} {z M.a} {z M.c0} {z M.c1} {Out.bool Gen.ttUses323}"
+  | "fam.domain" => some do
+      -- in: k a c ; out: the (a,b,c) handed to make_vertices | E:ValueError
+      let k ← Rd.nat c
+      let a : α ← Rd.sc c; let cc : α ← Rd.sc c
+      pure (tripleE ((tableOf k).domain a cc))
+  | "fam.ttdomain" => some do
+      let t : α ← Rd.sc c
+      pure (tripleE (Gen.tt.domain Gen.fam323 t))
+  | "fam.getshape" => some do
+      let k ← Rd.nat c
+      let a : α ← Rd.sc c; let cc : α ← Rd.sc c
+      pure (ptsE ((tableOf k).getShape a cc))
+  | "fam.ttshape" => some do
+      let t : α ← Rd.sc c
+      pure (ptsE (Gen.tt.getShape Gen.fam323 t))
+  | "fam.ngon" => some do
+      -- in: n z area angle ; out: n points | E
+      let n ← Rd.nat c
+      let z : α ← Rd.sc c; let area : α ← Rd.sc c; let angle : α ← Rd.sc c
+      pure (ptsE (ngon n z area angle))
+  | "fam.uniform" => some do
+      -- in: kind n ; kind 0 n-gon family, 1 prism, 2 antiprism, 3 pyramid, 4 dipyramid
+      let kind ← Rd.nat c
+      let n ← Rd.nat c
+      let r : Except String (List (V3 α)) :=
+        if kind = 0 then regularNGon n else if kind = 1 then prism n
+        else if kind = 2 then antiprism n else if kind = 3 then pyramid n else dipyramid n
+      pure (ptsE r)
+  | "fam.doi" => some do
+      -- in: doi as char codes ; out: k, then k strings as (len, codes) | E:KeyError
+      let s ← str c
+      match Gen.doi.get s with
+      | .ok names => pure (" ".intercalate (Out.int names.length :: names.map outStr))
+      | .error e => pure s!"E:{e}"
+  | "spec.fam.vertices" => some do
+      -- in: planes, types, a b c ; out: exact vertex set of the half-space intersection (use Q)
+      let planes : List (V3 α) ← Rd.list c (Rd.v3 c)
+      let types ← Rd.list c (Rd.nat c)
+      let a : α ← Rd.sc c; let b : α ← Rd.sc c; let cc : α ← Rd.sc c
+      pure (pts (exactVertices (rows planes types a b cc)))
+  | "spec.fam.shoelace" => some do
+      let P : List (V3 α) ← Rd.list c (Rd.v3 c)
+      pure (Out.sc (shoelace P))
   | _ => none
 
 end OpsC17
